@@ -550,6 +550,8 @@ func checkC02(c *Check) {
 	if r == nil {
 		return
 	}
+	wholeSemantics(c, r, "R-whole-semantics", modelOpts{Ast: true, Inline: true})
+	wholeSemantics(c, r, "R-whole-semantics", modelOpts{Ast: true, Switch: true})
 	optSets := []modelOpts{{Ast: true, Switch: true}, {Ast: true, Switch: true, Inline: true}}
 	if c.Tier == "thorough" {
 		optSets = append(optSets, modelOpts{Ast: false, Switch: true}, modelOpts{Ast: false, Switch: true, Inline: true})
